@@ -55,3 +55,22 @@ pub fn corpus() -> &'static [Entry] {
         v
     })
 }
+
+static FUZZ: OnceLock<Vec<Entry>> = OnceLock::new();
+
+/// Inputs harvested from the coverage-guided C01 campaign (tools/snapshot_fuzz_corpus.py: the
+/// libFuzzer corpus after `-merge=1`, minus golden entries, loops, possible recursion, deep
+/// nesting, random()/unique-id()). A committed snapshot, used by thorough tiers only so that the
+/// quick tiers stay a function of the golden corpus. Absent file = empty list.
+pub fn fuzz_corpus() -> &'static [Entry] {
+    FUZZ.get_or_init(|| {
+        let p = verif_root().join("corpus").join("fuzz_corpus.json");
+        match std::fs::read_to_string(&p) {
+            Ok(txt) => serde_json::from_str(&txt).unwrap_or_else(|e| {
+                eprintln!("fuzz_corpus.json malformed: {}", e);
+                std::process::exit(2);
+            }),
+            Err(_) => vec![],
+        }
+    })
+}
